@@ -10,6 +10,10 @@
 #define BIG_BYTES (7UL << 20)
 #define BIG_PAD 4096
 static unsigned char *big_a, *big_b, *big_ref;
+/* a region with a multiple of 4 GiB in its middle: code that compares or subtracts pointers through a 32-bit type gives
+ * different answers for two operands on either side of it, and nowhere else */
+static unsigned char *big_s;
+static uintptr_t big_boundary;
 
 typedef struct bcase {
     int row;          /* index into big_rows */
@@ -19,6 +23,7 @@ typedef struct bcase {
     long k;           /* overlap distance in elements */
     long val;
     uint32_t cseed;
+    int straddle;     /* operands placed across a multiple of 4 GiB (region big_s) */
 } bcase_t;
 
 static const char *const big_names[] = {"memset_s", "memzero_s", "memset16_s", "memzero16_s", "memset32_s", "memzero32_s",
@@ -33,6 +38,13 @@ static void big_init(const runcfg_t *cfg) {
     big_a = mmap(NULL, BIG_BYTES + 2 * BIG_PAD, PROT_READ | PROT_WRITE, MAP_PRIVATE | MAP_ANONYMOUS | MAP_NORESERVE, -1, 0);
     big_b = mmap(NULL, BIG_BYTES + 2 * BIG_PAD, PROT_READ | PROT_WRITE, MAP_PRIVATE | MAP_ANONYMOUS | MAP_NORESERVE, -1, 0);
     big_ref = mmap(NULL, BIG_BYTES + 2 * BIG_PAD, PROT_READ | PROT_WRITE, MAP_PRIVATE | MAP_ANONYMOUS | MAP_NORESERVE, -1, 0);
+    for (i = 1; i <= 64 && !big_s; i++) {
+        uintptr_t b = (uintptr_t)i << 32;
+        void *want = (void *)(b - BIG_BYTES / 2 - BIG_PAD);
+        void *p = mmap(want, BIG_BYTES + 2 * BIG_PAD, PROT_READ | PROT_WRITE, MAP_PRIVATE | MAP_ANONYMOUS | MAP_NORESERVE | MAP_FIXED_NOREPLACE, -1, 0);
+        if (p == want) { big_s = p; big_boundary = b; }
+        else if (p != MAP_FAILED) munmap(p, BIG_BYTES + 2 * BIG_PAD);
+    }
 }
 
 static int is_move_row(const row_t *r) { return strstr(r->name, "move") != NULL; }
@@ -56,16 +68,17 @@ static int gen_big(cs_t *cs, void *k, const runcfg_t *cfg) {
     c->doff = (int)cs_noise(cs, 0, 9);
     c->soff = (int)cs_noise(cs, 0, 9);
     { static const long KS[] = {1, 3, 7, 64, 4096, 65536}; c->k = KS[cs_noise(cs, 0, 5)]; if (cs_noise(cs, 0, 3) == 0) c->k = c->nel / 2; }
-    { static const long VS[] = {0, 1, 0x5a, 0x80, 0xff, 0x1234, 0xfedc, 0x12345678}; c->val = VS[cs_noise(cs, 0, 7)]; }
+    { static const long VS[] = {0, 1, 0x5a, 0x80, 0xff, 0x1234, 0xfedc, 0x12345678, 0xa5a5a5a5L, 0xffffffffL, 0x20202020}; c->val = VS[cs_noise(cs, 0, 10)]; }
     if (r->w == 1) c->val &= 0xff; else if (r->w == 2) c->val &= 0xffff; /* larger fill values are a documented constraint violation */
     c->cseed = (uint32_t)cs_noise(cs, 0, 0xffffff);
+    c->straddle = cs_noise(cs, 0, 3) == 0;
     return 1;
 }
 
 static void big_describe(const void *k, char *buf, size_t n) {
     const bcase_t *c = k;
     const row_t *r = big_rows[c->row % NBIG];
-    snprintf(buf, n, "%s(%ld elements of %d bytes, dest+%d%s, value 0x%lx)", r ? r->name : "?", c->nel, r ? r->w : 0, c->doff,
+    snprintf(buf, n, "%s(%ld elements of %d bytes, dest+%d%s%s, value 0x%lx)", r ? r->name : "?", c->nel, r ? r->w : 0, c->doff, c->straddle ? ", operands across a multiple of 4 GiB" : "",
              c->mode == 1 ? ", src = dest + k" : c->mode == 2 ? ", src = dest - k" : (r && is_copy_row(r) ? ", src disjoint" : ""), c->val);
 }
 
@@ -82,6 +95,7 @@ static void exec_big(const void *k, res_t *r, const runcfg_t *cfg) {
     int overlap;
     (void)cfg;
     r->hash = cs_hash_bytes(CS_HASH_INIT, c, offsetof(bcase_t, cseed));
+    r->hash = cs_hash_u64(r->hash, (uint64_t)c->straddle);
     if (!row || !big_a) { res_label(r, "skipped"); return; }
     w = (size_t)row->w;
     bytes = (size_t)c->nel * w;
@@ -92,12 +106,25 @@ static void exec_big(const void *k, res_t *r, const runcfg_t *cfg) {
     if (c->mode == 1) src = dest + (size_t)c->k * w;
     else if (c->mode == 2) { if ((size_t)c->k * w > 65536 + (size_t)c->doff * w - 64) src = dest - w; else src = dest - (size_t)c->k * w; }
     else if (is_copy_row(row)) src = big_b + BIG_PAD + (size_t)c->soff * w;
-    if (src && (src + bytes > big_a + BIG_PAD + total) && c->mode) { res_label(r, "skipped"); return; }
+    if (c->straddle && big_s) {
+        /* the boundary lies between the two operands of an overlapping move (dest below, src at or above it, or the other way
+         * round), or in the middle of dest for the other rows */
+        size_t kb = (size_t)c->k * w, half = ((kb + 1) / 2 + w - 1) / w * w;
+        if (c->mode && (kb >= bytes || bytes + kb + 2 * 65536 > BIG_BYTES / 2)) { res_label(r, "skipped"); return; }
+        base = big_s + BIG_PAD;
+        if (c->mode == 1) { dest = (unsigned char *)big_boundary - half; src = dest + kb; }
+        else if (c->mode == 2) { dest = (unsigned char *)big_boundary + kb - half; src = dest - kb; }
+        else dest = (unsigned char *)big_boundary - (bytes / 2) / w * w;
+        if (dest < base + 65536 || dest + bytes + 65536 > base + total) { res_label(r, "skipped"); return; }
+        res_label(r, "across-4GiB");
+    }
+    if (!(c->straddle && big_s) && src && (src + bytes > big_a + BIG_PAD + total) && c->mode) { res_label(r, "skipped"); return; }
     overlap = c->mode != 0;
     /* fill: position-coded dest region (with margins), random source */
     /* only the window that can matter is prepared and compared: operands plus 64 KiB on either side */
     {
-        size_t lo = 0, hi = (size_t)(dest - base) + bytes + 65536 + ((c->mode == 1) ? (size_t)c->k * w : 0);
+        size_t first = (size_t)((src && overlap && src < dest ? src : dest) - base);
+        size_t lo = first > 65536 ? (first - 65536) & ~(size_t)7 : 0, hi = (size_t)(dest - base) + bytes + 65536 + ((c->mode == 1) ? (size_t)c->k * w : 0);
         if (hi > total) hi = total;
         hi &= ~(size_t)7;
         win_lo = lo; win_hi = hi;
